@@ -45,7 +45,7 @@ structure PayloadOk (cfg : Cfg) (req : Req) (p : Payload) (a : Accepted) : Prop 
   /-- with NTS: decodes, carries the request's unique identifier, opens under the S2C key -/
   nts : cfg.nts = true → p.ntsDecodeOk = true ∧ p.ntsUidEq = true ∧ p.ntsOpenOk = true
 
-theorem payloadOk_of_ntpStage (cfg : Cfg) (prev : Prev) (req : Req) (cTx1 cRx : Int) (p : Payload)
+theorem C05_payload_ok (cfg : Cfg) (prev : Prev) (req : Req) (cTx1 cRx : Int) (p : Payload)
     (a : Accepted) (h : ntpStage cfg prev req cTx1 cRx p = .accept a) : PayloadOk cfg req p a := by
   obtain ⟨hl, hn, ho, hm, _, _, h12⟩ := ntpStage_accept cfg prev req cTx1 cRx p a h
   obtain ⟨m1, m2, m3, m4, m5⟩ := validMetadata_true _ _ hm
@@ -57,7 +57,7 @@ theorem C05_accept_sound_ip (cfg : Cfg) (server : Nat) (prev : Prev) (req : Req)
     (d : IpDgram) (a : Accepted) (h : classifyIP cfg server prev req cTx1 cRx d = .accept a) :
     d.src = server ∧ PayloadOk cfg req d.payload a := by
   obtain ⟨hs, hn⟩ := classifyIP_accept cfg server prev req cTx1 cRx d a h
-  exact ⟨hs, payloadOk_of_ntpStage _ _ _ _ _ _ _ hn⟩
+  exact ⟨hs, C05_payload_ok _ _ _ _ _ _ _ hn⟩
 
 /-- non-vacuity: a datagram that is accepted (basic request sent at t = 10 s, reply stamped
     2 s ahead) -/
@@ -81,7 +81,7 @@ theorem C05_accept_sound_scion (cfg : Cfg) (sc : ScionCtx) (prev : Prev) (req : 
         au.macOk = true) ∧
     PayloadOk cfg req d.payload a := by
   obtain ⟨h1, _, h3, h4, h5, h6, h7, h8, h9, hn⟩ := classifySCION_accept cfg sc prev req cTx1 cRx d a h
-  exact ⟨h1, h3, h4, h5, h6, h7, h8, h9, payloadOk_of_ntpStage _ _ _ _ _ _ _ hn⟩
+  exact ⟨h1, h3, h4, h5, h6, h7, h8, h9, C05_payload_ok _ _ _ _ _ _ _ hn⟩
 
 /-- The authenticator clause is conditional, as in the code: a packet *without* an
     authenticator option is accepted unauthenticated even when a key is available
